@@ -159,7 +159,7 @@ class C17(fw.Property):
     coq_props = "Props/C17.v"
     gen_jobs = ["resource_site"]
     model_imports = ["Verif.Lib.Py", "Verif.Model.C17Base", "Verif.Gen.resource_site", "Verif.Model.C17"]
-    quick_budget = 240
+    quick_budget = 200
     thorough_budget = 12000
     design_ref = "DESIGN.md section 21"
     technique = ("Coq refinement proof of the lookup code translated from resource.py to a declarative Route relation (induction over the nested-site tree), "
@@ -183,7 +183,7 @@ class C17(fw.Property):
     trusted_base = ["custom translator translate/jobs/c17.py + Model/C17Base.v prelude (validated by the flat_site stream on every run)",
                     "hand-written Model/C17.v (validated by the site_history and wkc_filter streams)",
                     "harness: handler resources, link_format_to_message capture, URI segment split of get_request_uri()"]
-    assumptions = ["model and theorems: a Site object registered at two places is not mutated afterwards (value tree); the oracle-only stream shared_site covers mutation after sharing; a Site is never registered inside itself", "several filter criteria in one request are modelled as the code behaves (late binding) and judged as a conjunction (open finding C17:filter-several-criteria)",
+    assumptions = ["model and theorems: a Site object registered at two places is not mutated afterwards (value tree); the oracle-only stream shared_site covers mutation after sharing; a Site is never registered inside itself", "several filter criteria in one request are a conjunction (fixed in /repo f7c02cb; the oracle rule C17:filter-several-criteria stays armed)",
                    "a sub-site registered at the empty path: the oracle judges by the literal 'longest proper prefix' (open finding C17:empty-prefix-subsite-ignored); the refinement theorems to the literal RouteSpec assume no such site (no_empty_subsite)",
                    "only the path and query parts of get_request_uri() are compared (fake remote 'srv'); a single empty Uri-Query option vanishing in urlunparse is left to C16"]
 
